@@ -219,6 +219,21 @@ CHECKS["C09"] = (
     "DESIGN.md §4 C09",
 )
 
+CHECKS["C17"] = (
+    "E-CH",
+    "CrossHair/z3 symbolic execution of parse_object on subcommand trees (selector presence/name, section presence per level as solver choices, symbolic leaf ints) compared with a selection model; solver-enumerated argv/config/environment combinations",
+    "Bounded symbolic model checking of the real code. Subcommand trees of depth 1-2 with 3 (+2) subcommands, required and optional, a "
+    "global option, config arguments, and three kinds of default config file. The solver chooses whether the selector key is present "
+    "and which name it holds (incl. an unknown one), which subcommands have a section at each level and whether the global is given; "
+    "leaf ints are symbolic (object channel) - path trees exhausted. The result is compared with a 20-line selection model at every "
+    "level: the stored choice, the chosen section = sub-parser defaults overlaid with the given values, no section of any other "
+    "subcommand, failure iff the model says so. The same through --cfg text and parse_string, and every combination of a name on "
+    "argv, in the config, in the environment and a section in the config (256 combinations per mode).",
+    "Trusted: the selection model (named on argv, else named in config/env, else first in declaration order with settings, else error "
+    "if required). Outside: depth 3, default config files inside sub-parsers, empty sections.",
+    "DESIGN.md §4 C17",
+)
+
 NOT_APPLICABLE = {
     "C13": "the resolver's only input is source code on disk (inspect.getsource/ast.parse/import); a symbolic program cannot be "
     "represented for that code and types/defaults are part of the program, so no dimension of the quantifier can be a solver variable",
